@@ -8,9 +8,7 @@ package main
 // e2 = 0, it is the wrap pair.
 
 import (
-	"fmt"
 	"go/ast"
-	"go/types"
 )
 
 type segFamily struct {
@@ -20,94 +18,6 @@ type segFamily struct {
 	Wrap bool // the single pair (len-1, 0)
 	Node ast.Node
 	Cond ast.Expr // innermost enclosing if-condition that is not the use itself (nil if none)
-}
-
-func (f segFamily) String() string {
-	if f.Wrap {
-		return "(len-1,0)"
-	}
-	return fmt.Sprintf("{(m,m+1) | %s ≤ m < %s}", f.A, f.B)
-}
-
-// elemIndex: if e denotes V[idx] returns idx.
-func elemIndex(info *types.Info, sc *fnScope, e ast.Expr, isV func(ast.Expr) bool) ast.Expr {
-	ix, ok := unparen(e).(*ast.IndexExpr)
-	if !ok || !isV(ix.X) {
-		return nil
-	}
-	return ix.Index
-}
-
-// pairFamily classifies the use of V[e1], V[e2] given the enclosing loops.
-func pairFamily(info *types.Info, sc *fnScope, loops []*Loop, e1, e2 ast.Expr, vOf ast.Expr) (segFamily, string) {
-	// inside a loop whose index appears in e1/e2
-	for i := len(loops) - 1; i >= 0; i-- {
-		l := loops[i]
-		if l.Idx == nil {
-			continue
-		}
-		c1, ok1 := sc.idxOffset(e1, l.Idx)
-		c2, ok2 := sc.idxOffset(e2, l.Idx)
-		if ok1 && ok2 {
-			if c2 < c1 {
-				c1, c2 = c2, c1
-			}
-			if c2 != c1+1 {
-				return segFamily{}, fmt.Sprintf("vertices at offsets %+d and %+d are not consecutive", c1, c2)
-			}
-			if !l.Lo.ok || !l.Hi.ok {
-				return segFamily{}, "loop bounds not affine"
-			}
-			return segFamily{A: l.Lo.plus(c1), B: l.Hi.plus(c1)}, ""
-		}
-		if ok1 != ok2 {
-			return segFamily{}, "one vertex index follows the loop, the other does not"
-		}
-	}
-	a1, a2 := sc.aff(e1), sc.aff(e2)
-	if a1.ok && a2.ok {
-		isLast := func(a Aff) bool { return a.Of != nil && a.K == -1 && sameExpr(info, a.Of, sc.canon(vOf)) }
-		isFirst := func(a Aff) bool { return a.Of == nil && a.K == 0 }
-		if (isLast(a1) && isFirst(a2)) || (isFirst(a1) && isLast(a2)) {
-			return segFamily{Wrap: true}, ""
-		}
-	}
-	return segFamily{}, "vertex indices `" + src(e1) + "`, `" + src(e2) + "` not recognised"
-}
-
-// coversChain: the families together visit exactly the open chain
-// {(m,m+1) | 0 ≤ m < len(V)-1} once.
-func coversChain(info *types.Info, fams []segFamily, v ast.Expr) string {
-	n := 0
-	for _, f := range fams {
-		if f.Wrap {
-			continue
-		}
-		n++
-		if !(f.A.ok && f.A.Of == nil && f.A.K == 0) {
-			return "first segment visited starts at vertex " + f.A.String() + ", not 0"
-		}
-		if !(f.B.ok && f.B.Of != nil && f.B.K == -1 && sameExpr(info, f.B.Of, v)) {
-			return "last segment visited ends the range at " + f.B.String() + ", want len-1 (segments 0..len-2)"
-		}
-	}
-	if n == 0 {
-		return "no loop over consecutive vertex pairs"
-	}
-	if n > 1 {
-		return "consecutive pairs are visited more than once"
-	}
-	return ""
-}
-
-func hasWrap(fams []segFamily) int {
-	n := 0
-	for _, f := range fams {
-		if f.Wrap {
-			n++
-		}
-	}
-	return n
 }
 
 // enclosing returns the chain of statements from the function body down to n.
